@@ -193,7 +193,20 @@ class Record:
                 self.static_vars[c["name"]] = c
 
 
+import threading
+_TLS = threading.local()
+
+
 class TU:
+    # function-local constexpr values needed to canonicalise type sugar; per thread (units run in parallel)
+    @property
+    def const_env(self):
+        return getattr(_TLS, "const_env", {})
+
+    @const_env.setter
+    def const_env(self, v):
+        _TLS.const_env = v
+
     def __init__(self, root):
         self.root = root
         self.decl = {}        # id -> node (every Decl kind we may reference)
